@@ -46,6 +46,7 @@ func checkRepeat(c Case) *pk.Failure {
 	req := c.Request("vm", "tree")
 	req.Rep = c.Reps
 	req.GoMaxProcs = c.GoMaxProcs
+	req.RerunCompiled = 2 // each repetition also runs its compiled program twice more on fresh VMs
 	resp := px.Pool().Exec(req)
 	if f := px.SandboxFailure("repeat", resp); f != nil {
 		f.Msg = px.ProgText(c.ProgCase) + "\n" + f.Msg
@@ -70,6 +71,23 @@ func checkRepeat(c Case) *pk.Failure {
 	all := append(append([]sb.RepResult{}, resp.Reps...), resp2.Reps...)
 	if len(all) < 2 {
 		return pk.Failf("repeat", "no-reps", "expected repetitions, got %d", len(all))
+	}
+	// "earlier runs in the same process": a compiled program that is run again (fresh VM, fresh host) behaves
+	// like its first run
+	for i, rep := range all {
+		for _, r := range rep.Runs {
+			first := fmt.Sprintf("outcome=%s/%s/%q writes=%q", r.Outcome.Class, r.Outcome.Kind, r.Outcome.Message, strings.Join(r.Writes, ""))
+			for k, rr := range r.Reruns {
+				pk.Extra("reruns-compared", 1)
+				again := fmt.Sprintf("outcome=%s/%s/%q writes=%q", rr.Outcome.Class, rr.Outcome.Kind, rr.Outcome.Message, strings.Join(rr.Writes, ""))
+				if rr.InitPanic != "" {
+					again = "init panic: " + rr.InitPanic
+				}
+				if again != first {
+					return pk.Failf("repeat", "rerun-differs:"+r.Backend, "repetition %d: run %d of the same compiled program differs from its first run\n  first: %s\n  now:   %s\n%s", i, k+2, first, again, px.ProgText(c.ProgCase))
+				}
+			}
+		}
 	}
 	base := all[0]
 	bd := diagMultiset(append(append([]sb.Diag{}, base.Diags...), base.SyntaxErrors...))
@@ -119,7 +137,7 @@ func TestRepeatGenerated(t *testing.T) {
 	rapid.Check(t, func(rt *rapid.T) {
 		g := gen.Program(rt, cfg)
 		pk.Eval()
-		if tr, ok := px.Model(g); !ok && px.TooBig(tr) {
+		if tr, ok := px.Model(g); !ok && (px.TooBig(tr) || gen.MayExplode(g.Prog)) {
 			pk.Discard("unbounded-growth")
 			return
 		}
@@ -204,6 +222,25 @@ pub fn g() -> str { "d.g" }
 pub fn h() -> str { "d.h" }
 pub let shared = 4;
 fn main() {}
+`},
+	// loops over literals that are left early: nothing of the iteration may stay behind in the compiled program
+	"early-exits": {"main": `fn first(n: int) -> str {
+    for c in "hello" { if n >= 0 { return c; } }
+    "none"
+}
+fn main() {
+    for c in "world" { println(c); break; }
+    for x in [1, 2, 3] { println(x); if x == 2 { break; } }
+    for i in 5..9 { println(i); if i == 6 { break; } }
+    println(first(1), first(2));
+    try { for c in "xyz" { throw(c); } } catch e { println(e.message); }
+    let s = "abc";
+    for c in s { println(c); break; }
+    for c in s { println(c); }
+    let r = 0..4;
+    for i in r { if i == 1 { break; } }
+    for i in r { println(i); }
+}
 `},
 	"lambdas-and-locals": {"main": `fn main() {
     let a = 1; let b = 2; let c = 3; let d = 4; let e = 5; let f = 6; let g = 7; let h = 8;
